@@ -373,11 +373,14 @@ class CPHDType(Serializable):
     def to_node(self, doc, tag, ns_key=None, parent=None, check_validity=False, strict=DEFAULT_STRICT, exclude=()):
         node = super(CPHDType, self).to_node(
             doc, tag, ns_key=ns_key, parent=parent, check_validity=check_validity,
-            strict=strict, exclude=exclude+('GeoInfo', ))
-        # slap on the GeoInfo children
+            strict=strict, exclude=exclude+('GeoInfo', 'MatchInfo'))
+        # slap on the GeoInfo children, which the schema places before MatchInfo
         if self._GeoInfo is not None and len(self._GeoInfo) > 0:
             for entry in self._GeoInfo:
                 entry.to_node(doc, 'GeoInfo', ns_key=ns_key, parent=node, strict=strict)
+        if self.MatchInfo is not None and 'MatchInfo' not in exclude:
+            self.MatchInfo.to_node(
+                doc, 'MatchInfo', ns_key=ns_key, parent=node, check_validity=check_validity, strict=strict)
         return node
 
     def to_dict(self, check_validity=False, strict=DEFAULT_STRICT, exclude=()):
